@@ -4,18 +4,24 @@
    from_ / to_ of the molecule atoms = from_to).  A source edit of these statements changes coq/gen/IsoGuard.v and breaks the
    corresponding theorem below (or the translator refuses the new shape). *)
 From Coq Require Import ZArith List Bool Lia.
-From Model Require Import PyBase IsoBits IsoBitsExt.
+From Model Require Import PyBase IsoBits IsoBitsExt IsoBitsGuard.
 From Gen Require Import IsoGuard.
 Import ListNotations.
 Open Scope Z_scope.
 
-Theorem g_guard_test_is_model cython rm : g_guard_test cython rm = cython && has_unknown_h rm.
-Proof. reflexivity. Qed.
+Theorem g_guard_tests_are_model cython comps rm :
+  g_guard_test_1 cython comps rm = cython && has_unknown_h rm /\
+  g_guard_test_2 cython comps rm = cython && (big_ring_mol rm || big_ring_query comps).
+Proof. split; reflexivity. Qed.
 
-Theorem g_uses_mask_path_is_model cython rm : g_uses_mask_path cython rm = uses_mask_path cython rm.
+(* the two guard statements and the selection of `components` = uses_mask_path2 of Model.IsoBitsGuard *)
+Theorem g_uses_mask_path_is_model cython comps rm : g_uses_mask_path cython comps rm = uses_mask_path2 cython comps rm.
 Proof.
-  unfold g_uses_mask_path, g_cython_after_guard, uses_mask_path.
-  rewrite g_guard_test_is_model. destruct cython, (has_unknown_h rm); reflexivity.
+  unfold g_uses_mask_path, g_cython_after_guard, uses_mask_path2.
+  destruct (g_guard_tests_are_model cython comps rm) as [-> _].
+  destruct cython, (has_unknown_h rm); cbn [andb negb];
+    try (destruct (g_guard_tests_are_model false comps rm) as [_ ->]); try (destruct (g_guard_tests_are_model true comps rm) as [_ ->]);
+    cbn [andb]; try reflexivity; destruct (big_ring_mol rm || big_ring_query comps); reflexivity.
 Qed.
 
 Theorem g_scope_bits_is_model rm s : g_scope_bits rm s = scope_bits rm s.
